@@ -4,7 +4,8 @@
    the yardstick for a setmap row is [count]: the number of lines of MEMBER files
    whose platform set is the row's key. *)
 From Coq Require Import Bool Arith ZArith String List.
-From CBI Require Import Lib.Res Model.C01 Spec.C01 Model.C04 Spec.C04 Gen.C08_tables Model.C08 Spec.C08 Proofs.C08 Model.C10 Proofs.C10.
+From CBI Require Import Lib.Res Model.C01 Spec.C01 Model.C04 Spec.C04 Gen.C08_tables Model.C08 Spec.C08 Proofs.C08 Model.C10 Proofs.C10 Model.C10g Proofs.C10g.
+From CBI Require Model.C09.
 Import ListNotations.
 Local Open Scope string_scope.
 Local Open Scope list_scope.
@@ -39,7 +40,7 @@ Theorem C10_setmap_filter :
 Proof.
   intros fs fuel root xs ts more w cfg am am' sm sm' H1 H2.
   destruct (setmap_filter_rows _ _ _ _ _ _ _ _ _ _ _ _ H1 H2) as [Ha Hr]. split; [exact Ha|]. split; [|exact Hr].
-  intros k. unfold analyse in H1. destruct (find_cb fs fuel (member_of root (effective xs ts)) cfg); [|discriminate].
+  intros k. unfold analyse, analyse_cli, analyse_m in H1. destruct (find_cb fs fuel (member_of root (effective xs ts)) cfg); [|discriminate].
   inversion H1; subst. apply row_is_count.
 Qed.
 Print Assumptions C10_setmap_filter.
@@ -81,7 +82,7 @@ Print Assumptions C10_outside_root_never_counted.
    to the command line's. *)
 Theorem C10_excludes_from_source :
   excludes_main = XThenToml /\ excludes_tree = excludes_main /\
-  forall xs ts, effective xs ts = xs ++ ts.
+  forall (A : Type) (xs ts : list A), effective xs ts = xs ++ ts.
 Proof. repeat split; reflexivity. Qed.
 Print Assumptions C10_excludes_from_source.
 
@@ -95,6 +96,127 @@ Theorem C10_x_equals_toml :
     analyse fs fuel root xs ts w cfg = analyse fs fuel root ts xs w cfg.
 Proof. exact x_equals_toml. Qed.
 Print Assumptions C10_x_equals_toml.
+
+(* ====================================================================== *)
+(* The same theorems for an ARBITRARY exclude matcher: [PATS] is any type of pattern
+   lists, [member pats f] any function playing the part of `f in CodeBase(root, pats)`.
+   NO hypothesis on [member] is used, except: monotonicity between the two lists for the
+   one-sided row equation (second clause of C10g_setmap_filter; it is false for lists
+   with negated patterns, for which the two-sided equation is the statement), and
+   "members satisfy [keep]" for C10g_outside (with keep = "under the root"). *)
+Theorem C10g_assoc_independent :
+  forall (PATS : Type) (member : PATS -> path -> bool) fs fuel w cfg p1 p2 am1 sm1,
+    analyse_m (member p1) fs fuel w cfg = Ok (am1, sm1) ->
+    (forall am2 sm2, analyse_m (member p2) fs fuel w cfg = Ok (am2, sm2) -> am1 = am2) /\
+    (fs_wf fs -> exists sm2, analyse_m (member p2) fs fuel w cfg = Ok (am1, sm2)).
+Proof.
+  intros PATS member fs fuel w cfg p1 p2 am1 sm1 H. split.
+  - intros am2 sm2 H2. exact (g_assoc_independent PATS member _ _ _ _ _ _ _ _ _ _ H H2).
+  - intros Hwf. exact (g_total PATS member _ _ _ _ _ _ _ _ Hwf H).
+Qed.
+Print Assumptions C10g_assoc_independent.
+
+Theorem C10g_setmap_filter :
+  forall (PATS : Type) (member : PATS -> path -> bool) fs fuel w cfg p1 p2 am sm1 sm2,
+    analyse_m (member p1) fs fuel w cfg = Ok (am, sm1) ->
+    analyse_m (member p2) fs fuel w cfg = Ok (am, sm2) ->
+    (forall k, get k sm1 = count (names_of cfg) w am (member p1) k fs) /\
+    (forall k,
+       get k sm1 + count (names_of cfg) w am (fun f => member p2 f && negb (member p1 f)) k fs =
+       get k sm2 + count (names_of cfg) w am (fun f => member p1 f && negb (member p2 f)) k fs) /\
+    ((forall f, member p2 f = true -> member p1 f = true) ->
+     forall k, get k sm1 = get k sm2 +
+       count (names_of cfg) w am (fun f => member p1 f && negb (member p2 f)) k fs).
+Proof.
+  intros PATS member fs fuel w cfg p1 p2 am sm1 sm2 H1 H2. split; [|split].
+  - exact (g_rows PATS member _ _ _ _ _ _ _ H1).
+  - exact (g_setmap_change PATS member _ _ _ _ _ _ _ _ _ H1 H2).
+  - intros Hm. exact (g_setmap_filter PATS member _ _ _ _ _ _ _ _ _ Hm H1 H2).
+Qed.
+Print Assumptions C10g_setmap_filter.
+
+Theorem C10g_keys_are_spec :
+  forall (PATS : Type) (member : PATS -> path -> bool) fs fuel w cfg p,
+    fs_wf fs -> accepted_S fs fuel cfg ->
+    exists am sm, analyse_m (member p) fs fuel w cfg = Ok (am, sm) /\
+      (forall n x, In n (plats_of (names_of cfg) am x) <-> uses_S fs fuel cfg n x) /\
+      (forall k, get k sm = count (names_of cfg) w am (member p) k fs).
+Proof. exact g_keys_are_spec. Qed.
+Print Assumptions C10g_keys_are_spec.
+
+Theorem C10g_outside :
+  forall (PATS : Type) (member : PATS -> path -> bool) (fs : fsys) names w am p (keep : path -> bool),
+    (forall f, member p f = true -> keep f = true) ->
+    setmap_M names w (member p) am fs = setmap_M names w (member p) am (filter (fun fl => keep (fst fl)) fs).
+Proof. exact g_outside. Qed.
+Print Assumptions C10g_outside.
+
+(* -x and the analysis file: for any matcher of lists the CLI analysis is the analysis of the
+   concatenated list, wherever the patterns were given *)
+Theorem C10g_x_equals_toml :
+  forall (X : Type) (member : list X -> path -> bool) fs fuel (xs ts : list X) w cfg,
+    analyse_cli member fs fuel xs ts w cfg = analyse_m (member (xs ++ ts)) fs fuel w cfg /\
+    analyse_cli member fs fuel xs ts w cfg = analyse_cli member fs fuel [] (xs ++ ts) w cfg /\
+    analyse_cli member fs fuel xs ts w cfg = analyse_cli member fs fuel (xs ++ ts) [] w cfg.
+Proof. intros X member. exact (g_x_equals_toml member). Qed.
+Print Assumptions C10g_x_equals_toml.
+
+(* ... in particular for C09's model of CodeBase.__contains__ with full gitignore lines
+   (Model/C10g.v: member_git = C09.contains_resolved on a file system of regular files):
+   two analyses with ANY two lists of gitignore lines record the same attribution, every row
+   counts member files only, the rows differ exactly by the files whose membership changed
+   (either way: a negated line can re-include), members lie under the root and out-of-root
+   files never count, and -x / analysis-file placement is irrelevant. *)
+Theorem C10_with_gitignore :
+  forall (fs : fsys) (fuel : nat) (root : path) (w : nodeid -> nat) (cfg : config),
+    (forall l1 l2 am1 sm1 am2 sm2,
+       analyse_git fs fuel root l1 [] w cfg = Ok (am1, sm1) ->
+       analyse_git fs fuel root l2 [] w cfg = Ok (am2, sm2) ->
+       am1 = am2 /\
+       (forall k, get k sm1 = count (names_of cfg) w am1 (member_git fs root l1) k fs) /\
+       (forall k,
+          get k sm1 + count (names_of cfg) w am1 (fun f => member_git fs root l2 f && negb (member_git fs root l1 f)) k fs =
+          get k sm2 + count (names_of cfg) w am1 (fun f => member_git fs root l1 f && negb (member_git fs root l2 f)) k fs)) /\
+    (forall lines names am,
+       (forall f, member_git fs root lines f = true -> C09.is_prefix root f = true) /\
+       setmap_M names w (member_git fs root lines) am fs =
+       setmap_M names w (member_git fs root lines) am (filter (fun fl => C09.is_prefix root (fst fl)) fs)) /\
+    (forall xs ts,
+       analyse_git fs fuel root xs ts w cfg = analyse_git fs fuel root [] (xs ++ ts) w cfg /\
+       analyse_git fs fuel root xs ts w cfg = analyse_git fs fuel root (xs ++ ts) [] w cfg) /\
+    (forall xs ts ps, fs_wf fs -> accepted_S fs fuel cfg -> C09.compile false (xs ++ ts) = C09.CPats ps ->
+       exists am sm, analyse_git fs fuel root xs ts w cfg = Ok (am, sm) /\
+         (forall n x, In n (plats_of (names_of cfg) am x) <-> uses_S fs fuel cfg n x) /\
+         (forall k, get k sm = count (names_of cfg) w am (member_git fs root (xs ++ ts)) k fs)).
+Proof.
+  intros fs fuel root w cfg. split; [|split; [|split]].
+  - intros l1 l2 am1 sm1 am2 sm2. apply git_compare.
+  - intros lines names am. split; [intros f; apply member_git_under|apply git_outside].
+  - intros xs ts. apply git_x_equals_toml.
+  - intros xs ts ps. apply git_keys_are_spec.
+Qed.
+Print Assumptions C10_with_gitignore.
+
+(* non-vacuity of the gitignore instance: "*.h" then "!g.h" excludes h.h and re-includes g.h
+   (a file inside the root this time); the attribution is the same as without patterns *)
+Definition C10_git_fs : fsys :=
+  [ (["r"; "src"; "a.c"], [(0, KPlain (AInclude 0 (IQuote ["h.h"]))); (1, KIf (CDefd "X")); (2, KPlain ACode); (3, KEndif);
+                           (4, KPlain (AInclude 4 (IQuote ["g.h"])))]);
+    (["r"; "src"; "h.h"], [(0, KPlain (ADefine "X" VE)); (1, KPlain ACode)]);
+    (["r"; "src"; "g.h"], [(0, KPlain ACode)]) ].
+Definition C10_git_cfg : config :=
+  [ ("P", [{| e_file := ["r"; "src"; "a.c"]; e_dirs := []; e_defs := []; e_incs := [] |}]) ].
+Example C10_gitignore_nonvacuous :
+  (match analyse_git C10_git_fs 5 ["r"] [] [] (fun _ => 1) C10_git_cfg with
+   | Ok (am, sm) => (List.length am, get ["P"] sm) | Err _ => (0, 0) end,
+   match analyse_git C10_git_fs 5 ["r"] ["*.h"] [] (fun _ => 1) C10_git_cfg with
+   | Ok (am, sm) => (List.length am, get ["P"] sm) | Err _ => (0, 0) end,
+   match analyse_git C10_git_fs 5 ["r"] ["*.h"] ["!g.h"] (fun _ => 1) C10_git_cfg with
+   | Ok (am, sm) => (List.length am, get ["P"] sm) | Err _ => (0, 0) end,
+   match analyse_git C10_git_fs 5 ["r"] ["/src/**/a.c"; "src/"; "!src/g.h"] [] (fun _ => 1) C10_git_cfg with
+   | Ok (am, sm) => (List.length am, get ["P"] sm) | Err _ => (0, 0) end)
+  = ((8, 8), (8, 5), (8, 6), (8, 1)).
+Proof. vm_compute. reflexivity. Qed.
 
 (* "Not counted" is not "not processed": the variant that neither parses nor associates
    non-members gives a different row for a member file that includes an excluded
